@@ -527,6 +527,14 @@ def mc_cfg(nws, shapes, pats, maxlen, invs, ceil=True, aazero=True, spec="Spec",
             f"  MAXLEN = {maxlen}\n{extra}" + "".join(f"INVARIANT {i}\n" for i in invs) + "CHECK_DEADLOCK FALSE\n")
 
 
+def drop_dump(st):
+    """the state dump has been consumed; tlc.out stays as evidence"""
+    try:
+        os.remove(st["dump_path"])
+    except (OSError, KeyError, TypeError):
+        pass
+
+
 class Capped:
     """passes at most `cap` violations per key to the Report (so that every distinct key is written out), counts the rest"""
 
@@ -567,6 +575,7 @@ def check(pid, tier):
         h = s["hist"]
         if len(h) - 1 == maxlen and any(e["op"] in ("LoadNpz", "ReadTb", "ReadHr") for e in h[1:]):
             leaves.append(s)
+    drop_dump(st)
     if not leaves:
         raise MachineryError("no behaviour of full length in the dump")
     if len(leaves) > budget:
@@ -598,6 +607,7 @@ def check(pid, tier):
         rep.add_tlc("c18_store_deep", std)
         deep = [s for s in ftable.dump_states(std)
                 if len(s["hist"]) - 1 == 4 and s["hist"][-1]["op"] in ("LoadNpz", "ReadTb", "ReadHr")]
+        drop_dump(std)
         rng.shuffle(deep)
         nd_ = fd_ = 0
         for s in deep[:2500]:
@@ -621,6 +631,7 @@ def check(pid, tier):
         rep.case(("file", tuple(s["par"]), s["ndp"]))
         ndseen.add((s["ndp"], len(s["sys"]["R"]) > 15))
         replay_files(vio, s, wd, nf)
+    drop_dump(stf)
     if nf != stf["distinct"] or (1, True) not in ndseen or (0, True) not in ndseen:
         raise MachineryError(f"file-table dump incomplete: {nf} of {stf['distinct']}, classes {sorted(ndseen)}")
     rep.part("replay_files", states=nf)
